@@ -172,6 +172,27 @@ impl Projector {
             }
         }
 
+        // ... and when it is a list, the item is merged into the enclosing list (an item that
+        // starts with a list is read back that way): the inner items take its place and the
+        // blocks after the list go to the last of them
+        if iter.inlines().is_empty() {
+            if let Some(blocks) = items.last().cloned() {
+                let inner = match blocks.get(1) {
+                    Some(GraphBlock::BulletList(inner)) | Some(GraphBlock::OrderedList(inner)) => {
+                        Some(inner.clone())
+                    }
+                    _ => None,
+                };
+                if let Some(inner) = inner.filter(|inner| !inner.is_empty()) {
+                    items.pop();
+                    items.extend(inner);
+                    items
+                        .last_mut()
+                        .map(|last| last.extend(blocks[2..].iter().cloned()));
+                }
+            }
+        }
+
         iter.next()
             .map(|next| self.with(self.header_level).project_list_item(next))
             .map(|blocks| items.append(blocks.clone().as_mut()));
